@@ -320,25 +320,31 @@ theorem C02_full_false : ¬ C02_full := by
   rw [← Option.some.inj hv] at this
   exact absurd this (by decide)
 
-/-! ## a node kind outside M6: `UPath` with a protocol (finding F61) -/
+/-! ## a node kind outside M6: `UPath` with a protocol (finding F61, repaired) -/
 
-/-- What C02 needs of a node's state: different contents give different states ("never unchanged while a tracked file differs"). -/
-def C02_upath_full : Prop := ∀ f g : UFile, f.content ≠ g.content → upathState f ≠ upathState g
-
-/-- **C02_upath_full is false of the current code** (finding F61): on a file system without ETags (local `file://`, memory, ssh)
-the state is the constant `Generated.upathNoEtagState` whatever the content, so an edited file keeps its state, `RowsMatch` keeps
-holding and the consumer is reported unchanged. -/
-theorem C02_upath_full_false : ¬ C02_upath_full := by
+open Pytask.Hash in
+/-- **C02_upath_full** (holds since the repair of finding F61). A protocol-UPath node on a file system without ETags has, like a
+local file, the memoised content hash as state: with memos coherent with the file system (C12: `MemoCoherent`, kept by honest
+edits) and `sha` collision-free on the two contents, *different bytes give different states* — "never unchanged while a tracked
+file differs" extends to this node kind. (`Generated.upathNoEtagKind`, read from `nodes._get_state`, says which expression the
+code uses; with the old constant `"0"` this statement was false.) -/
+theorem C02_upath_full (sha md5 : Bytes → Str) (S : Bytes → Prop) (hS : InjOn sha S) (memo memo' : Memo) (W W' : Hash.World)
+    (hc : MemoCoherent sha md5 memo W) (hc' : MemoCoherent sha md5 memo' W')
+    (p q : Str) (mh mh' : Int) (c c' : Bytes)
+    (hp : W p = some (mh, c)) (hq : W' q = some (mh', c')) (s : S c) (s' : S c') (hne : c ≠ c') :
+    (upathStateOf sha md5 memo p (some (none, mh, c))).2 ≠ (upathStateOf sha md5 memo' q (some (none, mh', c'))).2 := by
+  rw [upathStateOf_noEtag, upathStateOf_noEtag, stateOfFile_coherent sha md5 memo W hc p mh c hp,
+      stateOfFile_coherent sha md5 memo' W' hc' q mh' c' hq]
   intro h
-  exact h ⟨none, 1, 0⟩ ⟨none, 2, 0⟩ (by decide) rfl
+  exact hne (hS c c' s s' (Option.some.inj h))
 
-/-- **C02_upath_partial**: with ETags that identify contents (equal ETags only for equal contents) the state separates contents. -/
-theorem C02_upath_partial (f g : UFile) (ef eg : String) (hf : f.etag = some ef) (hg : g.etag = some eg)
-    (hinj : ef = eg → f.content = g.content) (hne : f.content ≠ g.content) : upathState f ≠ upathState g := by
-  unfold upathState
-  rw [hf, hg]
+open Pytask.Hash in
+/-- **C02_upath_etag**: on a file system with ETags the state is the ETag; it separates contents as far as the ETags do. -/
+theorem C02_upath_etag (sha md5 : Bytes → Str) (memo memo' : Memo) (p q : Str) (e e' : Str) (mh mh' : Int) (c c' : Bytes)
+    (hinj : e = e' → c = c') (hne : c ≠ c') :
+    (upathStateOf sha md5 memo p (some (some e, mh, c))).2 ≠ (upathStateOf sha md5 memo' q (some (some e', mh', c'))).2 := by
   intro h
-  exact hne (hinj (by simpa using h))
+  exact hne (hinj (Option.some.inj h))
 
 /-! ## non-vacuity (project `exP`: input 10 → task 0 → 20 → task 1 → 21, 22; see `Lemmas/EngineExample.lean`) -/
 
@@ -386,5 +392,15 @@ example : ∀ t ∈ exP'.tasks, ∀ p i, (p, i) ∈ t.prods.zipIdx →
   rcases mem_exP' hu with rfl | rfl
   · exact ⟨rfl, Or.inr (by decide)⟩
   · exact ⟨rfl, Or.inl (by decide)⟩
+
+open Pytask.Hash in
+/-- The witness of the former finding F61 now holds: the file is rewritten from `A` to `B` (honest edit: a new mtime, fresh memos),
+no ETag; the two states differ as soon as `sha` separates the two contents. -/
+example (sha md5 : Bytes → Str) (hsha : sha [65] ≠ sha [66]) :
+    (upathStateOf sha md5 {} ['i', 'n'] (some (none, 1, [65]))).2 ≠ (upathStateOf sha md5 {} ['i', 'n'] (some (none, 2, [66]))).2 := by
+  rw [upathStateOf_noEtag, upathStateOf_noEtag, stateOfFile_some, stateOfFile_some]
+  simp only [Memo.get_empty]
+  intro h
+  exact hsha (Option.some.inj h)
 
 end Pytask
